@@ -193,6 +193,11 @@ def v4_keys(ctx, rid='V4'):
         if 'variable_name' not in k and 'String::new' not in k and 'push_str' not in k:
             pass
     c = ctx.facts.find(r'^<variable::VariableInfo as alloc::string::ToString>::to_string::\{closure#0\}$')
+    if not c:
+        # the key text is built in a helper / accessor that to_string hands back (spliced in): the closures it owns
+        ts = ctx.facts.find(r'^<variable::VariableInfo as alloc::string::ToString>::to_string$')
+        if len(ts) == 1:
+            c = [x for x in model.closures_of(ctx, ts[0]) if 'to_lowercase' in render(x.local_expr(0), transparent=False) or True][:1] if len(model.closures_of(ctx, ts[0])) == 1 else []
     disp = ctx.facts.find(r'^<variable::VariableInfo as core::fmt::Display>::fmt$')
     if len(c) == 1:
         r = render(c[0].local_expr(0), transparent=False)
